@@ -28,7 +28,30 @@ static void enumerateAll(const std::function<void(const Spec &)> &f) {
           }
     }
   });
-  // zero-area movable cells: separate sub-domain (aux = 1)
+  // zero-area movable cells on every shape of the alphabet (rows at positive, negative and mixed coordinates, wide and tall areas),
+  // unconnected or tied to a terminal above / below / beside the rows
+  {
+    auto shapes = gpShapes(1);
+    auto sets = gpCellSets(1);
+    for (auto &g : shapes)
+      for (int zw = 0; zw < 2; ++zw)
+        for (int tie = 0; tie < 4; ++tie) {
+          Spec s = gpSpec(g, sets[1], 1, 1, 1);
+          int n = s.cells.size();
+          CellSpec z; z.w = zw ? 0 : 2; z.h = zw ? g.rh : 0; z.x = g.x0 + 1; z.y = g.y0;
+          s.cells.push_back(z);
+          if (tie) {
+            CellSpec pad; pad.w = 0; pad.h = 0; pad.fixed = true;
+            pad.x = tie == 3 ? g.x0 + g.W + 40 : g.x0 + 2;
+            pad.y = tie == 1 ? g.y0 + g.nY * g.rh + 40 : (tie == 2 ? g.y0 - 40 : g.y0);
+            s.cells.push_back(pad);
+            NetSpec nt; nt.pins = {{n, 0, 0}, {n + 1, 0, 0}};
+            s.nets.push_back(nt);
+          }
+          s.aux = 1;
+          f(s);
+        }
+  }
   for (auto &base : gpRepresentatives()) {
     Spec s = base;
     CellSpec z; z.w = 0; z.h = s.rows[0].maxY - s.rows[0].minY; z.x = s.rows[0].minX + 1; z.y = s.rows[0].minY;
